@@ -177,7 +177,11 @@ func checkC19(p *Prog, rp *Report) {
 		aid := st.alloc(types.NewArray(dscT, 8), arr)
 		inputBefore := deepRender(st, SliceV{Obj: aid, Len_: 8, Cap: 8}, 0)
 		st.push(fn, []Val{SliceV{Obj: aid, Len_: 8, Cap: 8}, mkArch("amd64")}, nil)
+		m.SampleOrders = true
 		outs := m.Run(st)
+		if why := sampledOrders(outs); why != "" {
+			return nil, why
+		}
 		for _, o := range outs {
 			if o.Status == stRet {
 				if after := deepRender(o, SliceV{Obj: aid, Len_: 8, Cap: 8}, 0); after != inputBefore {
@@ -223,6 +227,10 @@ func checkC19(p *Prog, rp *Report) {
 		outs, why := run(f.goName, false, false)
 		if strings.HasPrefix(why, "PURITY: ") {
 			fields.bad("control.OrderDSCForBuild:"+f.wire, pos, strings.TrimPrefix(why, "PURITY: "), nil)
+			continue
+		}
+		if strings.HasPrefix(why, "ORDER: ") {
+			fields.bad("control.OrderDSCForBuild:"+f.wire, pos, strings.TrimPrefix(why, "ORDER: "), nil)
 			continue
 		}
 		if why != "" {
@@ -366,6 +374,7 @@ func c19Order(p *Prog, rp *Report) {
 		{"gtk", []string{"gtk"}, ""},
 	}
 	edges := [][2]string{{"lib", "tool"}, {"lib", "app"}, {"gtk", "doc-tools"}, {"gtk-doc", "tools"}}
+	buildArch := [3]string{"gnu", "linux", "amd64"}
 	run := func(field string, srcs []src) (order []string, errNil bool, why string) {
 		m := NewMachine(p, nil)
 		st := initState(m, "control", "dependency")
@@ -404,8 +413,12 @@ func c19Order(p *Prog, rp *Report) {
 		aid := st.alloc(types.NewArray(dscT, int64(len(srcs))), arr)
 		st.Status = stRun
 		st.Frames = nil
-		st.push(fn, []Val{SliceV{Obj: aid, Len_: len(srcs), Cap: len(srcs)}, mkStruct(archT, map[string]Val{"ABI": "gnu", "OS": "linux", "CPU": "amd64"})}, nil)
+		st.push(fn, []Val{SliceV{Obj: aid, Len_: len(srcs), Cap: len(srcs)}, mkStruct(archT, map[string]Val{"ABI": buildArch[0], "OS": buildArch[1], "CPU": buildArch[2]})}, nil)
+		m.SampleOrders = true
 		out := m.Run(st)
+		if why := sampledOrders(out); why != "" {
+			return nil, false, why
+		}
 		if len(out) != 1 {
 			return nil, false, fmt.Sprintf("%d paths", len(out))
 		}
@@ -433,6 +446,9 @@ func c19Order(p *Prog, rp *Report) {
 		case strings.HasPrefix(why, "PANIC"):
 			r.bad(key, pos, "ordering eight sources panics: "+why, nil)
 			continue
+		case strings.HasPrefix(why, "ORDER: "):
+			r.bad(key, pos, strings.TrimPrefix(why, "ORDER: "), nil)
+			continue
 		case why != "":
 			r.undecided(key, pos, why)
 			continue
@@ -455,6 +471,47 @@ func c19Order(p *Prog, rp *Report) {
 			}
 		}
 		fillProblems(r, key, pos, problems, "eight sources with the dependencies in this field: a permutation with lib before tool and app, gtk before doc-tools, gtk-doc before tools")
+	}
+	// a build architecture whose ABI is not gnu: restrictions spelt with the wildcard names <os>-any and any-<cpu>
+	// cover it (Policy 11.1), negated ones exclude it. app depends on lib and tool; extra-bin [!linux-any] does not
+	// apply, and extra itself depends on app: an edge from extra to app would close a cycle.
+	{
+		buildArch = [3]string{"musl", "linux", "amd64"}
+		key := "control.OrderDSCForBuild:non-gnu-build-architecture"
+		order, errNil, why := run("BuildDepends", []src{
+			{"extra", []string{"extra-bin"}, "app"},
+			{"app", []string{"app"}, "libfoo-dev [linux-any] | missing-pkg, tool-bin [any-amd64], extra-bin [!linux-any], other [kfreebsd-any]"},
+			{"tool", []string{"tool-bin"}, ""},
+			{"lib", []string{"libfoo-dev"}, ""},
+			{"other", []string{"other"}, "app"},
+		})
+		buildArch = [3]string{"gnu", "linux", "amd64"}
+		switch {
+		case strings.HasPrefix(why, "PANIC"):
+			r.bad(key, pos, "ordering five sources for musl-linux-amd64 panics: "+why, nil)
+		case strings.HasPrefix(why, "ORDER: "):
+			r.bad(key, pos, strings.TrimPrefix(why, "ORDER: "), nil)
+		case why != "":
+			r.undecided(key, pos, why)
+		case !errNil:
+			r.bad(key, pos, "built for musl-linux-amd64, an acyclic set of sources is rejected: 'extra-bin [!linux-any]' and 'other [kfreebsd-any]' do not apply to a linux architecture, whatever its ABI", nil)
+		default:
+			idx := map[string]int{}
+			for i, s := range order {
+				idx[s] = i
+			}
+			var problems []string
+			if len(idx) != 5 || len(order) != 5 {
+				problems = append(problems, fmt.Sprintf("the result %v is not a permutation of the 5 sources", order))
+			} else {
+				for _, e := range [][2]string{{"lib", "app"}, {"tool", "app"}, {"app", "extra"}, {"app", "other"}} {
+					if idx[e[0]] > idx[e[1]] {
+						problems = append(problems, fmt.Sprintf("built for musl-linux-amd64, %s is ordered before %s, which provides one of its build dependencies ('libfoo-dev [linux-any]', 'tool-bin [any-amd64]': wildcard names cover every ABI): %v", e[1], e[0], order))
+					}
+				}
+			}
+			fillProblems(r, key, pos, problems, "five sources built for musl-linux-amd64: [linux-any] and [any-amd64] apply, [!linux-any] and [kfreebsd-any] do not")
+		}
 	}
 	// the same eight sources, each parsed from an ordinary multi-binary .dsc (the decoder included)
 	{
@@ -527,4 +584,30 @@ func c19Order(p *Prog, rp *Report) {
 	default:
 		r.check(!errNil && len(order) == 0, "control.OrderDSCForBuild:cycle", pos, "two sources that build-depend on each other: an error and no order", fmt.Sprintf("two sources that build-depend on each other give the order %v (error nil: %v)", order, errNil))
 	}
+}
+
+// sampledOrders: the run went through a range over a map too large to enumerate and forked over three of its
+// orders. Outcomes that differ are a witness ("ORDER: ..."); a single outcome proves nothing and is undecided.
+func sampledOrders(outs []*State) string {
+	sampled := false
+	for _, o := range outs {
+		if o.Notes["map-order-sampled"] {
+			sampled = true
+		}
+	}
+	if !sampled {
+		return ""
+	}
+	if len(outs) > 1 {
+		var descs []string
+		for _, o := range outs {
+			d := retDesc([]*State{o})
+			if o.Status == stRet {
+				d = clip(deepRender(o, o.Ret, 0), 160)
+			}
+			descs = append(descs, d)
+		}
+		return "ORDER: the result depends on the iteration order of a map (of more than six entries; three orders were tried): " + strings.Join(uniq(descs), " versus ")
+	}
+	return "range over a map of more than six entries: the three orders tried agree, all orders were not enumerated (permutation bound)"
 }
